@@ -27,8 +27,8 @@ LIB = "proto shared\n\nenum Mode : uint2 {\n    MODE_OFF = 0\n    MODE_ON = 1\n}
 
 SCHEMAS = {
     # S1 / S2 share every name and differ in one width: any name-keyed cache collides
-    "s1": "proto dup\n\nenum Color : uint3 {\n    COLOR_A = 0\n    COLOR_B = 1\n}\n\ntype Stamp = int24\n\nmessage Pen {\n    Color c = 1\n    Stamp t = 2\n    uint5 w = 3\n    message Cap {\n        bool on = 1\n    }\n    Cap cap = 4\n}\n",
-    "s2": "proto dup\n\nenum Color : uint3 {\n    COLOR_A = 0\n    COLOR_B = 1\n}\n\ntype Stamp = int24\n\nmessage Pen {\n    Color c = 1\n    Stamp t = 2\n    uint6 w = 3\n    message Cap {\n        bool on = 1\n    }\n    Cap cap = 4\n}\n",
+    "s1": "proto dup\n\nenum Color : uint3 {\n    COLOR_B = 1\n    COLOR_A = 0\n}\n\ntype Stamp = int24\n\nmessage Pen {\n    Color c = 1\n    Stamp t = 2\n    uint5 w = 3\n    message Cap {\n        bool on = 1\n    }\n    Cap cap = 4\n}\n",
+    "s2": "proto dup\n\nenum Color : uint3 {\n    COLOR_B = 1\n    COLOR_A = 0\n}\n\ntype Stamp = int24\n\nmessage Pen {\n    Color c = 1\n    Stamp t = 2\n    uint6 w = 3\n    message Cap {\n        bool on = 1\n    }\n    Cap cap = 4\n}\n",
     # S3 / S4 share an imported file
     "s3": "proto usera\n\nimport \"shared.bitproto\"\n\nmessage A {\n    shared.Mode m = 1\n    shared.Point[2] ps = 2\n}\n",
     "s4": "proto userb\n\nimport sh \"shared.bitproto\"\n\nconst N = 3\n\nmessage B {\n    sh.Point p = 1\n    sh.Mode[N] ms = 2\n    uint13 tail = 3\n}\n",
